@@ -12,8 +12,9 @@ def setup():
     from . import regexshim
     regexshim.generate_shim()
     gen = {}
-    for p in PROPS.values():
-        for g in p.generators:
+    from .main import GLOBAL_GENERATORS
+    for p in [None]:
+        for g in GLOBAL_GENERATORS:
             try:
                 gen.update(g("quick", 0).get("files", {}))
             except Exception as e:  # noqa
